@@ -283,7 +283,7 @@ pub fn load_opts(text: &str, strict: bool) -> Result<Loaded, String> {
         }
     }
     let (padding_addr, padding_value) = first.unwrap();
-    let public_input = crate::refm::pubin::make_public_input(
+    let public_input = crate::refm::make_public_input(
         fu(log_n_steps as u64), fu(need_u64(pi, "rc_min")?), fu(need_u64(pi, "rc_max")?), b2f(&BigUint::from_bytes_be(layout.as_bytes())),
         dynamic_params.as_ref().map(|d| serde_json::to_value(d).unwrap()),
         &segments.iter().map(|s| (s.begin_addr, s.stop_ptr)).collect::<Vec<_>>(), (padding_addr, padding_value),
